@@ -228,8 +228,12 @@ def run_mutants(repo: Repo, rules: List[Rule], res: Result, base_viol: set, only
             continue
         try:
             ms = r.mutants(repo)
-        except AnalysisError:
-            raise
+        except Exception as e:
+            # the variant generators are self-test code: when they cannot cope with the shape of the tree this is a
+            # fact about the self-test (recorded as a warning), never a verdict or an analysis error about the code
+            res.selftest["failures"].append({"rule": r.id, "mutant": "<generator>", "expect": "fire", "ok": False,
+                                             "detail": f"variant generator failed on this tree: {type(e).__name__}: {e}"})
+            continue
         have_control = False
         for m in ms:
             if only_controls and not m.control:
